@@ -281,6 +281,8 @@ func (s genSpec) ops(st *genState) (out []opx) {
 				st.txn([]model.Act{{Op: "put", Off: r, W: []model.Write{{SetTTL: true, TTL: time.Hour}}}}, false, ""),
 			)
 			if s.rich {
+				out = append(out, st.txn([]model.Act{{Op: "delall"}}, false, ""))
+				out = append(out, st.txn([]model.Act{{Op: "delall"}, {Op: "insert", W: full}}, true, ""))
 				out = append(out, st.txn([]model.Act{{Op: "put", Off: r, W: []model.Write{M("s", S("x")), W("s", S("a"))}}}, false, varlen))
 				out = append(out, st.txn([]model.Act{{Op: "del", Off: r}, {Op: "insert", W: []model.Write{M("n", V(5))}}}, false, ""))
 			}
